@@ -439,6 +439,48 @@ def r2_1(ctx: Ctx, rule="R2.1"):
                 ctx.ob(rule, g, s, not bad and src_ok,
                        "a frame entry is overwritten with a freshly built frame (not kept when one exists)"
                        + ("" if not bad else " -- guarded by `%s`" % norm(bad[0])), node=s)
+    # derived caches: a map attribute whose items are computed from frame-table entries must be invalidated wherever
+    # a frame entry is rewritten (otherwise restoration uses the axes of an earlier argument)
+    fa = em.frames_attr
+    caches = {}
+    for m_ in em.cls.methods.values():
+        for s in walk_no_nested(m_.node):
+            if isinstance(s, ast.Assign) and isinstance(s.targets[0], ast.Subscript):
+                a_ = attr_chain(s.targets[0].value)
+                if a_ and a_.startswith("self.") and a_ != fa:
+                    val = _resolve_local(m_.node, s.value)
+                    if any(isinstance(x, ast.Attribute) and attr_chain(x) == fa for x in ast.walk(val)) \
+                            or any(isinstance(x, ast.Attribute) and attr_chain(x) == fa for x in ast.walk(s.value)):
+                        caches.setdefault(a_, []).append((m_, s))
+    pmaps = {}
+    for a_, sites_ in caches.items():
+        def invalidates(st_, a_=a_):
+            if isinstance(st_, ast.Expr) and isinstance(st_.value, ast.Call) and isinstance(st_.value.func, ast.Attribute) \
+                    and attr_chain(st_.value.func.value) == a_ and st_.value.func.attr in ("pop", "clear"):
+                return True
+            if isinstance(st_, ast.Delete) and any(isinstance(t_, ast.Subscript) and attr_chain(t_.value) == a_ for t_ in st_.targets):
+                return True
+            if isinstance(st_, ast.Assign) and any(attr_chain(t_) == a_ for t_ in st_.targets):
+                return True
+            return False
+        # cleared unconditionally at the top of the recomputation or of the call?
+        top_clear = any(invalidates(st_) for g_ in (em.recompute, em.call) for st_ in g_.node.body)
+        for g_ in dict.fromkeys([em.recompute, em.recompute_general] + list(em.cls.methods.values())):
+            if g_ is em.init:
+                continue
+            pm_ = pmaps.setdefault(g_.qual, parents_map(g_.node))
+            for s in walk_no_nested(g_.node):
+                if isinstance(s, ast.Assign) and isinstance(s.targets[0], ast.Subscript) and attr_chain(s.targets[0].value) == fa:
+                    block = None
+                    par = pm_.get(id(s))
+                    for fld in ("body", "orelse", "finalbody"):
+                        if par is not None and s in getattr(par, fld, []):
+                            block = getattr(par, fld)
+                    okc = top_clear or (block is not None and any(invalidates(x) for x in block))
+                    ctx.ob(rule, g_, "%s ; cache %s" % (norm(s), a_), okc,
+                           "`%s` holds values computed from frame-table entries (%s): wherever a frame entry is rewritten the "
+                           "cached value is dropped, otherwise a later restoration uses the axes of an earlier argument"
+                           % (a_, norm(sites_[0][1])[:80]), node=s)
     # dispatch of the recomputation uses the size of its own argument
     g = em.recompute
     p = [x for x in g.params if x != "self"][0]
